@@ -122,6 +122,19 @@ def run_cases(unit_name, cases, opts, world=None):
             if o.extra.get('needs_validation') and rp.get('status') != 'reproduced':
                 o.result = 'unknown'; o.backend = (o.backend or '') + ' candidate model not reproduced'
                 continue
+            if getattr(case, 'internal_representation', False) and rp.get('status') != 'reproduced' and getattr(case, 'e2e', None) is not None:
+                try:
+                    found = case.e2e()
+                except Exception as ex:
+                    found = None; rp['e2e_error'] = f'{type(ex).__name__}: {ex}'
+                if found:
+                    rp = dict(rp, status='reproduced', end_to_end=found)
+            if getattr(case, 'internal_representation', False) and rp.get('status') != 'reproduced':
+                # the contract pins an internal representation (accumulator layout, pipeline shape of an rx.pipe-defined operator): a
+                # refactoring can change it without changing any output.  Such a refutation is reported as a violation only together
+                # with a failing real input (the bounded tier of the same check); alone it is an undecided obligation.
+                o.result = 'unknown'; o.backend = (o.backend or '') + ' refuted, but the clause is about an internal representation: needs a failing input'
+                continue
             violations.append({'obligation': o.name, 'replay': rp, 'model': model_text(o.model) if o.model is not None else None})
     return {
         'unit': unit_name, 'kind': 'deductive', 'functions': rep.functions,
